@@ -1,6 +1,6 @@
 """C19 - command-line values mean what the manual says (spec/cli/Flags.tla)."""
 import json, os
-from . import core
+from . import core, acmd
 from .main import report_rejections
 
 
@@ -31,4 +31,6 @@ def run(ctx):
                                  "-max-body in every documented spelling, -connect-to tuples, -dns-ttl values and -resolvers lists (dialled over loopback UDP)"})
     ctx.assumptions += ["the pacer handed to the attacker is the stored rate (attack.go passes opts.rate)", "negative rates and N/0s are not judged",
                         "resolver addresses are loopback IPv4 so that dialling needs no network"]
+    # the command-line anchor of this property: the attack command end to end against a loopback server (spec/cli/AttackCmd.tla)
+    acmd.run_part(ctx, vh)
     return "model_checking"
